@@ -1,6 +1,7 @@
 import WellenModel.Model.Store
 import WellenModel.Proofs.Stream
 import WellenModel.Proofs.Canon
+import WellenModel.Proofs.Compress
 import WellenModel.Proofs.EntryRoundtrip
 /-!
 Block level: the offset table `finish_block` writes lets `Block::get_offset_and_length` cut every signal's bytes back
@@ -692,5 +693,107 @@ theorem vcd_block_values (bits : Nat) (hb2 : 2 ≤ bits) (calls : List (Nat × L
   obtain ⟨d, hdec, hsym⟩ := entry_roundtrip s.maxStates x.2.1 nums (by omega) (by simpa [B] using hfit) hle
   rw [hl] at hdec hsym
   exact ⟨nums, d, hl, hp, by rw [hp]; exact hdec, hsym⟩
+
+end Wellen.Store
+
+namespace Wellen.Store
+open Wellen.Bits
+
+theorem divCeil_mul_ge (bits b : Nat) (hb : 0 < b) : bits ≤ divCeil bits b * b := by
+  unfold divCeil
+  have h1 := Nat.div_add_mod (bits + b - 1) b
+  have h2 := Nat.mod_lt (bits + b - 1) hb
+  have h3 : (bits + b - 1) / b * b = b * ((bits + b - 1) / b) := Nat.mul_comm _ _
+  omega
+
+/-- **the pre-encoded path (GHW) appends a well-formed chunk**: a successful `add_n_bit_change` on a multi-bit signal appends
+LEB128(delta << 2 | kind) followed by exactly ceil(bits / symbols per byte of that kind) bytes -/
+theorem addNBit_chunk (ti : Nat) (value : List Nat) (st : States) (s s' : SigEnc) (bits : Nat)
+    (ht : s.tpe = .bitvec bits) (hb : bits ≠ 1) (h : addNBit ti value st s = some s') :
+    ∃ loc body, body.length = divCeil bits loc.bib ∧
+      s'.chunks = encChange (ti - s.prevTimeIdx) loc body :: s.chunks ∧ s'.prevTimeIdx = ti ∧ s'.tpe = s.tpe := by
+  unfold addNBit at h
+  simp only [ht, hb, ↓reduceIte] at h
+  split at h
+  · cases h
+  · rename_i hreq
+    cases h
+    have hvl : (value.drop (value.length - divCeil bits st.bib)).length = divCeil bits st.bib := by
+      rw [List.length_drop]; omega
+    refine ⟨checkMinState (value.drop (value.length - divCeil bits st.bib)) st, _, ?_, rfl, rfl, ht.symm⟩
+    split
+    · rename_i heq; rw [heq]; exact hvl
+    · have hbib : 0 < st.bib := by cases st <;> decide
+      exact Wellen.Slice.compressTemplate_length st _ _ bits (by rw [hvl]; exact divCeil_mul_ge bits st.bib hbib)
+
+/-- a sequence of `add_n_bit_change` calls (time index, pre-encoded bytes, kind) on one signal -/
+def rawWrites (s0 : SigEnc) : List (Nat × List Nat × States) → Option SigEnc
+  | [] => some s0
+  | c :: r => match addNBit c.1 c.2.1 c.2.2 s0 with
+    | none => none
+    | some s1 => rawWrites s1 r
+
+theorem rawWrites_stream (bits : Nat) (hb : bits ≠ 1) (calls : List (Nat × List Nat × States)) : ∀ (s0 s : SigEnc),
+    s0.tpe = .bitvec bits → rawWrites s0 calls = some s →
+    ∃ cs : List (Nat × States × List Nat),
+      s.dataBytes = s0.dataBytes ++ encStream cs ∧
+      cs.map (·.1) = deltasFrom s0.prevTimeIdx (calls.map (·.1)) ∧
+      (∀ c ∈ cs, c.2.2.length = divCeil bits c.2.1.bib) := by
+  induction calls with
+  | nil =>
+    intro s0 s _ h
+    simp only [rawWrites] at h; cases h
+    exact ⟨[], by simp [encStream], rfl, by simp⟩
+  | cons c r ih =>
+    intro s0 s ht h
+    simp only [rawWrites] at h
+    cases h1 : addNBit c.1 c.2.1 c.2.2 s0 with
+    | none => simp [h1] at h
+    | some s1 =>
+      simp only [h1] at h
+      obtain ⟨loc, body, hlen, hch, hprev, htpe⟩ := addNBit_chunk c.1 c.2.1 c.2.2 s0 s1 bits ht hb h1
+      obtain ⟨cs, hd, hdl, hpay⟩ := ih s1 s (by rw [htpe]; exact ht) h
+      refine ⟨(c.1 - s0.prevTimeIdx, loc, body) :: cs, ?_, ?_, ?_⟩
+      · rw [hd, dataBytes_cons s1 _ _ hch]
+        simp [SigEnc.dataBytes, encStream, List.append_assoc]
+      · simp [deltasFrom, hdl, hprev]
+      · intro x hx
+        rcases List.mem_cons.mp hx with rfl | hx
+        · exact hlen
+        · exact hpay x hx
+
+/-- **the pre-encoded path (GHW) is transparent within a block** at the level of entries: one entry per call at the call's time
+index, whatever shares the block and whatever the compression decision -/
+theorem raw_block_roundtrip (c : Codec) (signals : Array SigEnc) (i : Nat) (s : SigEnc) (bits : Nat) (tt : List Nat) (t0 : Nat)
+    (calls : List (Nat × List Nat × States)) (hb : bits ≠ 1) (hne : calls ≠ [])
+    (hw : rawWrites { tpe := .bitvec bits } calls = some s) (hs : signals.toList[i]? = some s)
+    (hsorted : (calls.map (·.1)).Pairwise (· ≤ ·)) (hsmall : ∀ t ∈ calls.map (·.1), t < 2 ^ 30)
+    (hlen : divCeil s.dataBytes.length 32 < 2 ^ 32) :
+    ∃ cs : List (Nat × States × List Nat),
+      (absolutise 0 cs).map (·.1) = calls.map (·.1) ∧
+      (let r := finishSignals c signals
+       let b : Block := { startTime := t0, timeTable := tt, offsets := r.2.1, data := r.2.2 }
+       loadSignal { blocks := [b] } i (.bitvec bits) =
+         some { maxStates := s.maxStates,
+                times := (replayAbs bits s.maxStates (absolutise 0 cs) {}).timesRev.reverse,
+                entries := (replayAbs bits s.maxStates (absolutise 0 cs) {}).entriesRev.reverse }) := by
+  obtain ⟨cs, hd, hdl, hpay⟩ := rawWrites_stream bits hb calls { tpe := .bitvec bits } s rfl hw
+  have hd' : s.dataBytes = encStream cs := by simpa [SigEnc.dataBytes] using hd
+  have hcsne : cs ≠ [] := by
+    intro he; subst he
+    cases calls with
+    | nil => exact hne rfl
+    | cons c0 r => simp [deltasFrom] at hdl
+  have hcs : ∀ x ∈ cs, x.2.2.length = divCeil bits x.2.1.bib ∧ ((x.1 <<< 2) ||| x.2.1.toNat) < 2 ^ 32 := by
+    intro x hx
+    refine ⟨hpay x hx, ?_⟩
+    have hxd : x.1 ∈ cs.map (·.1) := List.mem_map.mpr ⟨x, hx, rfl⟩
+    rw [hdl] at hxd
+    obtain ⟨t, ht, hle⟩ := deltasFrom_le _ 0 x.1 hxd
+    exact hdr_bound x.1 x.2.1 (by have := hsmall t ht; omega)
+  refine ⟨cs, absolutise_times _ 0 cs hdl hsorted (fun _ _ => Nat.zero_le _), ?_⟩
+  have := single_block_load c signals i s bits tt t0 cs hs hb hd' hcsne hcs (by rw [← hd']; exact hlen)
+  simp only at this ⊢
+  rw [this, replayFixed_abs]
 
 end Wellen.Store
